@@ -74,6 +74,14 @@ class ScriptedServer(object):
                     with gevent.Timeout(idle, False):
                         d = self.sock.recv(4096)
                         idle = None
+                    if idle and self.script.get('idle_partial'):
+                        # start of an unsolicited line, never finished
+                        self.world.fault('peer-partial-reply')
+                        self.world.log('STALL', self.label, 'idle-partial')
+                        self.conn.stalled_at = ('idle', self.world.loop._now)
+                        self._send(b'421 4.4.2 Idle ti')
+                        gevent.sleep(10 ** 7)
+                        return None
                     if idle:
                         self.world.fault('server-idle-421')
                         self.world.log('IDLE421', self.label)
